@@ -29,6 +29,8 @@ FV = ("<func>fv", "${result} = 0.5d0*${v} + ${t}", lambda t, v: 0.5 * v + t)
 
 # a user function with two user-type results (both allocated, assigned and released by the generated code)
 FTWO = ("<func>two", ["${r1}{m} = 2*${y}{m} + ${t}", "${r2}{m} = ${y}{m} - 1"], lambda t, y: (2 * y + t, y - 1))
+# ... and one whose first result is a real scalar and whose second is a user type
+FMIX = ("<func>mix", "${e} = ${t} + 0.5d0", "${r}{m} = ${y}{m} + 1", lambda t, y: (t + 0.5, y + 1))
 # long per-step names (the Fortran identifier is the prefixed, length-limited form)
 LONG_UT = "k_stage_value_for_the_second_half_step_of_y"
 LONG_SC = "scratch_scalar_for_the_error_estimate_of_the_step"
@@ -148,6 +150,10 @@ class FortranGen:
             op = self.pick(["<", ">", "<=", ">=", "!=", "=="], "cmp")
             if op in ("!=", "=="):
                 b = Const(self.pick([1.0, 2.0, 0.0, 3.0], "eqc"))
+            if getattr(self, "nan_s", False) and "<state>s" in D and t.chance(0.5, "nancmp"):
+                # a comparison with the NaN scalar, plain or negated, on either side
+                c = Cmp(op, Var("<state>s"), b) if t.chance(0.5, "nanleft") else Cmp(op, a, Var("<state>s"))
+                return Not(c) if t.chance(0.6, "nanneg") else c
             return Cmp(op, a, b)
         if k == 1:
             return Var(self.pick(bs, "bv"))
@@ -233,7 +239,8 @@ class FortranGen:
                      1.2 if "<state>r" in self.types else 0,   # 16 two conditional expressions, same condition
                      1.0 if "<state>r" in self.types and depth >= 2 else 0,   # 17 array overwritten with other length
                      0.9,                    # 18 user function with two user-type results
-                     1.0 if "<state>r" in self.types else 0]   # 19 scalar assigned an integer and a real
+                     1.0 if "<state>r" in self.types else 0,   # 19 scalar assigned an integer and a real
+                     0.8]                    # 20 user function returning (scalar, user type)
                 k = t.weighted(w, "opkind")
                 op = self.gen_op(k, D, depth)
                 if op is None:
@@ -270,7 +277,13 @@ class FortranGen:
             te = [Var("<t>"), Bin("+", Var("<t>"), Bin("*", Const(self.pick([0.5, 1.0, 0.25], "tc")), Var("<dt>"))),
                   Bin("+", Var("<t>"), Var("<dt>"))][t.draw(3, "te")]
             srcs = [u for u in uts if u != tgt] or uts
-            args = [te, Var(self.pick(srcs, "arg"))]
+            yarg = Var(self.pick(srcs, "arg"))
+            if t.chance(0.25, "compoundarg"):
+                # a compound argument (the Fortran pipeline isolates it into a temporary of its own)
+                other = Var(self.pick(srcs, "arg_b"))
+                yarg = [Bin("*", Const(self.pick(DYADIC, "argc")), yarg), Bin("+", yarg, other),
+                        Bin("-", yarg, Bin("*", Var("<dt>"), other))][t.draw(3, "argform")]
+            args = [te, yarg]
             kws = []
             if FFUNCS[fn][0] == 2:
                 z = Var(self.pick(srcs, "arg2"))
@@ -505,6 +518,22 @@ class FortranGen:
                     kws.reverse()
                 return ("call", (tgt,), Call("<builtin>matmul", [Var(a), Var(a)], kws), self.mode())
             return ("call", (tgt,), Call("<builtin>matmul", [Var(a), Var(a), Const(c), Const(r)]), self.mode())
+        if k == 20:
+            cands = [x for x in SC_TEMPS if self.cls.get(x, "inexact") == "inexact"]
+            e_ = self.new_name(cands, "real", D)
+            r_ = self.new_name(UT_TEMPS, "ut", D)
+            if e_ is None or r_ is None:
+                return None
+            self.cls[e_] = "inexact"
+            srcs = [u for u in uts if u != r_] or ["<state>y"]
+            self.used_funcs.add(FMIX[0])
+            D.add(e_)
+            D.add(r_)
+            out = [("call", (e_, r_), Call(FMIX[0], [Var("<t>"), Var(self.pick(srcs, "arg"))]), self.mode())]
+            if t.chance(0.6, "usemix"):
+                out.append(("assign", "<state>y", None,
+                            Bin("+", Var("<state>y"), Bin("*", Var(e_), Var(r_))), [], self.mode()))
+            return out
         if k == 19:
             # one scalar holds an integer-valued result (len) and a real value in the same phase, in either
             # order; its kind is the join of both, and the real value must survive
@@ -664,6 +693,32 @@ class FortranGen:
             return ("assign", "<state>v", None, Var("v2"), [], self.mode())
         return None
 
+    def poly_block(self, role):
+        t = self.tape
+        n = 3 + t.draw(2, "polyn")
+        m = self.mode
+
+        def filled(name, e):
+            return [("call", (name,), Call("<builtin>array", [Const(n)]), m()),
+                    ("assign", name, Var("i"), e, [("i", Const(0), Const(n))], m())]
+
+        def read(name):
+            return ("assign", "<state>r", None,
+                    Bin("+", Sub(name, Const(0)), Bin("*", Const(2.0), Sub(name, Const(n - 1)))), [], m())
+        if role == "scalar":
+            return ([("assign", "pz", None, Bin("*", Const(2.0), Var("<dt>")), [], m())]
+                    + filled("pa", Bin("+", Var("i"), Const(0.5))) + filled("pb", Bin("*", Var("i"), Const(1.5)))
+                    + [("assign", "pb", None, Bin("*", Var("pz"), Var("pa")), [], m()), read("pb")])
+        e = [Bin("*", Const(2.0), Var("pz")), Bin("+", Var("pz"), Var("pz")),
+             Bin("-", Var("pz"), Bin("*", Var("<dt>"), Var("pz")))][t.draw(3, "polyform")]
+        # (the target either does not exist yet or has another length: it gets new storage here)
+        pre = []
+        if t.chance(0.5, "polyprealloc"):
+            pre = [("call", ("pc",), Call("<builtin>array", [Const(n + 1)]), m()),
+                   ("assign", "pc", Var("i"), Bin("*", Var("i"), Const(1.5)), [("i", Const(0), Const(n + 1))], m())]
+        return (filled("pz", Bin("+", Var("i"), Const(0.5))) + pre
+                + [("assign", "pc", None, e, [], m()), read("pc")])
+
     def gen(self):
         t = self.tape
         sc = FScript()
@@ -702,7 +757,20 @@ class FortranGen:
                 self.types["<state>s"] = "real"
                 self.exact.add("<state>s")
                 sc.state0["s"] = float(self.pick(SMALL, "s0"))
+                if t.chance(0.12, "s_nan"):
+                    # a persistent scalar that is not a number from the start: every comparison with it is
+                    # false in both back ends (and a negated comparison true)
+                    sc.state0["s"] = float("nan")
+                    sc.has_nan = True
+                    self.nan_s = True
                 self.pers_real.append("<state>s")
+                if t.chance(0.4, "state_S"):
+                    # a second persistent scalar whose name differs in case only: both compete for one
+                    # (case-insensitive) Fortran identifier
+                    self.types["<state>S"] = "real"
+                    self.exact.add("<state>S")
+                    sc.state0["S"] = float(self.pick(SMALL, "S0"))
+                    self.pers_real.append("<state>S")
             if t.chance(0.8, "state_r"):
                 self.types["<state>r"] = "real"
                 sc.state0["r"] = float(self.pick(SMALL + [1e-05, -3.0], "r0"))
@@ -718,6 +786,13 @@ class FortranGen:
             self.cls["<state>r"] = "inexact"
         persistent = set(self.types)
         prev_core = None
+        # a per-step name that is a scalar in one phase and an array in another (per-phase kinds)
+        poly_plan = None
+        with t.span("polyname"):
+            if len(names) >= 2 and "<state>r" in self.types and t.chance(0.25, "polyname"):
+                order = [i for i in t.perm(len(names), "polyphases")][:2]
+                poly_plan = {order[0]: "scalar", order[1]: "array"}
+                self.n_poly = 1
         for pi, name in enumerate(names):
             with t.span("phase"):
                 D = set(persistent)
@@ -742,6 +817,8 @@ class FortranGen:
                     core = self.gen_block(D, 2, 1 + t.draw(self.max_ops, "nops"))
                 prev_core = (core, set(D))
                 ops += core
+                if poly_plan is not None and pi in poly_plan:
+                    ops += self.poly_block(poly_plan[pi])
                 # typing anchor and time advance
                 if not any(op[0] == "call" and op[2].fn in FFUNCS for op in _flat(ops)) or t.chance(0.5, "anchor"):
                     self.used_funcs.add("<func>f")
@@ -798,6 +875,7 @@ class FortranGen:
         sc.n_shrink = self.n_shrink
         sc.n_condpair = self.n_condpair
         sc.n_twin = getattr(self, "n_twin", 0)
+        sc.n_poly = getattr(self, "n_poly", 0)
         sc.struct = self.struct
         sc.M = self.M
         sc.has_v = any(("<state>v" in (op[1],) if op[0] == "assign" else False) or
@@ -854,17 +932,22 @@ def module_preamble(sc):
         """ % na
 
 
-def user_type_map(sc):
+def user_type_map(sc, default_index=False):
+    """default_index: let ArrayType name its index variables itself (from its class-wide counter, at
+    construction); the type objects are then part of the description and must be made once."""
     import dagrt.codegen.fortran as f
+
+    def iv(name):
+        return {} if default_index else {"index_vars": name}
     if getattr(sc, "struct", None):
         na, nb = sc.struct
         m = {"y": f.StructureType("ytype", (
-            ("a", f.ArrayType((na,), f.BuiltinType("real*8"), index_vars="iv")),
-            ("b", f.PointerType(f.ArrayType((nb,), f.BuiltinType("real*8"), index_vars="kw")))))}
+            ("a", f.ArrayType((na,), f.BuiltinType("real*8"), **iv("iv"))),
+            ("b", f.PointerType(f.ArrayType((nb,), f.BuiltinType("real*8"), **iv("kw"))))))}
     else:
-        m = {"y": f.ArrayType((sc.N,), f.BuiltinType("real*8"), index_vars="iv")}
+        m = {"y": f.ArrayType((sc.N,), f.BuiltinType("real*8"), **iv("iv"))}
     if getattr(sc, "has_v", False):
-        m["v"] = f.ArrayType((sc.M,), f.BuiltinType("real*8"), index_vars="jv")
+        m["v"] = f.ArrayType((sc.M,), f.BuiltinType("real*8"), **iv("jv"))
     return m
 
 
@@ -879,6 +962,16 @@ def make_registry(sc):
             freg = register_ode_rhs(freg, "v", identifier=fn, input_type_ids=("v",), input_names=("v",))
             freg = freg.register_codegen(fn, "fortran", f.CallCode("\n    " + FV[1] + "\n    "))
             twins[fn] = FV[2]
+            continue
+        if fn == FMIX[0]:
+            from dagrt.data import Scalar, UserType
+            from dagrt.function_registry import register_function
+            freg = register_function(freg, fn, ("t", "y"), result_names=("e", "r"),
+                                     result_kinds=(Scalar(is_real_valued=True), UserType("y")))
+            members = ["%a", "%b"] if getattr(sc, "struct", None) else [""]
+            text = "    " + FMIX[1] + "\n" + "\n".join("    " + FMIX[2].replace("{m}", m_) for m_ in members)
+            freg = freg.register_codegen(fn, "fortran", f.CallCode("\n" + text + "\n    "))
+            twins[fn] = FMIX[3]
             continue
         if fn == FTWO[0]:
             from dagrt.data import UserType
